@@ -97,17 +97,17 @@ def run(ctx):
                         continue
                     argv = ["--color", "never", "-t=+00:00", "--blocksz", str(bsz), "--summary"] + (["-a", wmid] if win else []) + [p]
                     jobs.append((s4, argv))
-                    meta.append((shape, bsz, cont, win, size, small, nmsg))
+                    meta.append((shape, bsz, cont, win, size, small, nmsg, data.count(b"\n")))
             del data
     res = core.pmap(measure, jobs, workers=8)
     table = {}
     for m, r in zip(meta, res):
-        shape, bsz, cont, win, size, small, nmsg = m
+        shape, bsz, cont, win, size, small, nmsg, nlines = m
         if r["timed_out"] or r["blocks"] is None:
             ctx.inconc("no-summary")
             continue
         ctx.evaluated(1, (shape, bsz, cont, win, size))
-        table[(shape, bsz, cont, win, "small" if size == small else "big")] = dict(r, size=size, nmsg=nmsg)
+        table[(shape, bsz, cont, win, "small" if size == small else "big")] = dict(r, size=size, nmsg=nmsg, nlines=nlines)
     rows = []
     for (shape, bsz, cont, win, which), r in sorted(table.items(), key=lambda kv: str(kv[0])):
         if which != "small":
@@ -128,8 +128,11 @@ def run(ctx):
         sclass = "messages-much-smaller-than-a-block" if avg_msg * 2 < bsz else "messages-about-a-block-or-larger"
         wclass = "window" if win else "nowindow"
         # lines / messages held
+        # each probe of the binary search may leave the lines of the message(s) it parsed: the logarithmic allowance for
+        # lines is counted in messages' worth of lines
+        lpm = max(1.0, b["nlines"] / float(max(1, b["nmsg"])))
         for key in ("lines", "syslines"):
-            if b[key] > s[key] + 8 + slack_log:
+            if b[key] > s[key] + 8 + slack_log * (lpm if key == "lines" else 1):
                 ctx.violation("C17|%s-high-grows-with-size|%s|%s|%s" % (key, cont, wclass, sclass),
                               "%s high %d at %d blocks vs %d at %d blocks (%s, blocksz %d)" % (key, b[key], nb_b, s[key], nb_s, shape, bsz), info=info)
         # blocks held
